@@ -9,7 +9,7 @@ func (e *BinaryOpExpr) Check(ctx *CheckCtx) error {
 	}
 	e.tryRewriteExpr(ctx)
 	switch e.Op {
-	case And, Or:
+	case And, Or, KWAnd, KWOr:
 		return e.checkWithAndOr(ctx)
 	case Not:
 		return NewSyntaxError(e.GetPos(), "Invalid operator !")
@@ -300,6 +300,11 @@ func (e *BoolExpr) Check(ctx *CheckCtx) error {
 func (e *ListExpr) Check(ctx *CheckCtx) error {
 	if len(e.List) == 0 {
 		return NewSyntaxError(e.GetPos(), "Empty list")
+	}
+	for _, item := range e.List {
+		if err := item.Check(ctx); err != nil {
+			return err
+		}
 	}
 	if len(e.List) > 1 {
 		ftype := e.List[0].ReturnType()
